@@ -133,6 +133,13 @@ def check_arrays(ctx, values: list[int], bt):
             y = pickle.loads(pickle.dumps(arr, protocol=proto))
             if [x.ticks for x in y] != values or y._array.tobytes() != want:
                 ctx.violation(path=f"{acls.__name__}.pickle{proto}", observed="differs", required="same elements")
+            # the unpickled array is an array like any other: it takes a value into its 16-byte records and gives it back
+            if values:
+                probe = values[-1]
+                r = outcome(lambda: y.__setitem__(0, cls.from_ticks(probe)))
+                if r[0] != "ok" or y[0].ticks != probe or (len(values) > 1 and y[1].ticks != values[1]):
+                    ctx.violation(path=f"{acls.__name__}.pickle{proto}.setitem", ticks=probe, observed=show(r) if r[0] != "ok" else y[0].ticks,
+                                  required=probe)
         ctx.count("paths", f"{acls.__name__} x {len(values)}")
 
 
